@@ -39,4 +39,4 @@ CHECK = SimCheck(
     RULE, ["per-sender order uses the harness' global publish counter, which increases in send order on each connection"],
     quick=(700, 60), thorough=(15000, 160), nontrivial=nontrivial,
 )
-run, replay, shard = CHECK.run, CHECK.replay, CHECK.shard
+run, replay_trace, shard = CHECK.run, CHECK.replay_trace, CHECK.shard
